@@ -422,7 +422,7 @@ def run(tier, seed):
     # references (cached by exact input; depends only on /verif code and the input, never on /repo)
     caches = {cls: load_cache(cls) for cls in REGIMES}
     todo = [t for t in tasks if (t[1], t[2]) not in caches[t[0]]]
-    res = common.pmap(reference, todo, chunk=1) if todo else []
+    res = common.pmap(reference, todo, chunk=6) if todo else []
     dirty = set()
     for t, r in zip(todo, res):
         caches[t[0]][(t[1], t[2])] = r
